@@ -113,6 +113,13 @@ def check_obligations(ctx, rule_id: str, ids: set[str]):
         for e in early:
             for l in late:
                 if e.index == l.index:
+                    if e.name != l.name:
+                        # two rewrites fused into one traversal: the later one runs on a node before the earlier one has
+                        # seen the nodes visited after it, so for those the order is reversed
+                        ctx.ob(rule_id, f"{oid} {title}: {e.name} and {l.name} are separate passes", False, loc)
+                        ctx.violation(rule_id, "cursor", "FakeSnowflakeCursor._transform", f"{oid}: {l.name} fused with {e.name}", loc,
+                                      f"pipeline order: `{e.name}` and `{l.name}` run in the same traversal (stage {e.index}): for every node "
+                                      f"visited after the one `{l.name}` rewrites, `{e.name}` runs too late — {reason}")
                     continue
                 ok = e.index < l.index
                 ctx.ob(rule_id, f"{oid} {title}: {e.name}@{e.index} before {l.name}@{l.index}", ok, loc)
